@@ -33,6 +33,8 @@ def check(run):
             tail += [{"op": "push", "from": 1, "to": 2}, {"op": "push", "from": 2, "to": 1}]   # both: identical listings
             # and once more into fresh nodes, now that both have served snapshots and learnt entries only by merging
             tail += [{"op": "push", "from": 1, "to": 8}, {"op": "push", "from": 2, "to": 7}]
+            if i % 2 == 1:                                                   # every other scenario: the exchanges of a Join
+                tail = [dict(o, join=True) for o in tail]
             s["ops"] = s["ops"] + tail
         scns += a + b
         run.log("%s: %d exhaustive (all gossip lost), %d simulated (partial gossip, TLC-chosen pushes)" % (mp, len(a), len(b)))
@@ -50,7 +52,7 @@ def check(run):
                 "in both directions, and pushes of both nodes into further fresh nodes afterwards, probing every node after each step; non-trivial = the history contains a removal the peer has not seen",
         "scenarios": len(scns), "trace_spec_states": tstates, "rejections": len(rejected), "exhaustive": True,
         "samples": [scns[0]["ops"], scns[len(scns) // 2]["ops"], {"trace_excerpt": vlib.head_events(tpath, 5)}],
-    }, ["a push is MergeRemoteState(peer.LocalState(false)) on the real states, as memberlist's push/pull does",
+    }, ["a push is MergeRemoteState(peer.LocalState(join), join) on the real states, as memberlist's push/pull does; join = true (the exchanges of a Join) in every other scenario",
         "session identifiers are never re-created after removal"],
         violations=v.n_new)
     run.log("validated %d scenarios (%d events), %d rejected (%d known)" % (validated, nev, len(rejected), v.n_known))
